@@ -26,7 +26,8 @@ DISTINCT = ('failpoints', 'unencodable_cases', 'concurrent_schedules')
 REQUIRED = ('failpoints_injected', 'ops_with_all_gates_enumerated', 'unencodable_values', 'lock_timeouts',
             'history_calls', 'concurrent_programs', 'failures_after_file_written', 'expired_file_row_paths',
             'failures_injected_into_concurrent_programs', 'handles_opened_during_concurrent_programs',
-            'timeouts_under_commit_contention')
+            'timeouts_under_commit_contention',
+            'nested_failures_handled_and_committed')
 ASSUMPTIONS = ('fault model: a statement other than COMMIT/ROLLBACK fails (SQLite rolls the statement back), a file '
                'operation other than unlink/rmdir fails; a failing unlink makes the property unsatisfiable for any '
                'implementation and is outside the model', 'single failure per operation')
@@ -274,6 +275,82 @@ def expired_file_rows(dc, sc, res, shard, nshards):
                 cache.close()
                 probe.set_clock(None)
                 sc.drop(d)
+
+
+# ------------------------------------- a write fails INSIDE a block, the block handles it and commits
+def nested_failures_handled(dc, sc, res, shard, nshards):
+    """Inside a transact() block a nested write fails - its row statement is refused (a tag of a type SQLite cannot bind)
+    or fails with an injected database / file error - the block catches the exception, does something else and commits.
+    The failed call has no effect: the old value stays readable, and rows, counters and files agree."""
+    bad_tag = object()
+    ops = {
+        'set over file': lambda c: c.set('f', BIGB, tag=bad_tag),
+        'set over inline': lambda c: c.set('i', BIGS, tag=bad_tag),
+        'set new file': lambda c: c.set('n', BIGS, tag=bad_tag),
+        'add new file': lambda c: c.add('n', BIGB, tag=bad_tag),
+        'push file': lambda c: c.push(BIGS, prefix='q', tag=bad_tag),
+        'set stream': lambda c: c.set('f', io.BytesIO(BIGB), read=True, tag=bad_tag),
+    }
+    injected = {
+        'set over file': lambda c: c.set('f', BIGB), 'set new file': lambda c: c.set('n', BIGS),
+        'add new file': lambda c: c.add('n', BIGB), 'incr': lambda c: c.incr('num', 2), 'pop file': lambda c: c.pop('f'),
+        'delete file': lambda c: c.delete('f'), 'push file': lambda c: c.push(BIGS, prefix='q'),
+        'pull file': lambda c: c.pull(prefix='q'), 'touch': lambda c: c.touch('f', 30),
+    }
+    cases = [('refused row statement', name, fn, None) for name, fn in sorted(ops.items())]
+    for name, fn in sorted(injected.items()):
+        for n in range(1, 9):
+            cases.append(('injected failure #%d' % n, name, fn, n))
+    for i, (how, name, fn, n) in enumerate(cases):
+        if i % nshards != shard:
+            continue
+        d = sc.new()
+        cache = dc.Cache(d, disk_min_file_size=T)
+        obs = observe.Observer(d)
+        try:
+            cache.set('f', BIGS, tag='t')
+            cache.set('i', 'inline')
+            cache.set('num', 5)
+            cache.push(BIGB, prefix='q')
+            before = sorted((repr(k), repr(cache.get(k))) for k in cache)
+            ctrl = fault.FailAt(n) if n is not None else None
+            raised = None
+            with cache.transact():
+                cache.set('marker', 1)
+                probe.set_controller(ctrl)
+                try:
+                    fn(cache)
+                except Exception as exc:      # noqa: BLE001 - the block handles the failure
+                    raised = type(exc).__name__
+                finally:
+                    probe.set_controller(None)
+                cache.set('marker', 2)
+            if raised is None:
+                res.count('nested_failpoints_not_reached' if n is not None else 'nested_refusals_not_raised')
+                continue
+            res.count('evaluations')
+            res.count('nested_failures_handled_and_committed')
+            wit = {'case': how, 'operation': name, 'raised': raised, 'failed_at': ctrl.fired if ctrl else 'row statement'}
+            after = sorted((repr(k), repr(cache.get(k))) for k in cache if k != 'marker')
+            if cache.get('marker') != 2:
+                res.violation('%s (%s) inside a block: the block\'s own writes did not commit' % (name, how), wit)
+                continue
+            if n is None and after != before:
+                res.violation('%s refused inside a block that then committed changed the cache: %r -> %r' % (
+                    name, [b for b in before if b not in after][:2], [a for a in after if a not in before][:2]), wit)
+                continue
+            missing = [k for k, v in after if v == 'None' and (k, v) not in before]
+            if missing:
+                res.violation('%s (%s) inside a block that then committed: %r lost their values' % (name, how, missing), wit)
+                continue
+            problems = quiescent_problems(dc, cache, d, obs)
+            if problems:
+                res.violation('%s (%s) inside a block that then committed: %s' % (name, how, problems[:3]), wit)
+        finally:
+            probe.set_controller(None)
+            obs.close()
+            cache.close()
+            sc.drop(d)
 
 
 def later_ops_work(cache):
@@ -524,6 +601,7 @@ def run_shard(tier, seed, shard, nshards, res):
         failpoint_enumeration(dc, sc, res, shard, nshards, tier)
         unencodable(dc, sc, res, shard, nshards)
         expired_file_rows(dc, sc, res, shard, nshards)
+        nested_failures_handled(dc, sc, res, shard, nshards)
         rng = common.rng_for(seed, 'c08', shard)
         lock_timeouts(dc, sc, res, rng)
         probe.reset()
